@@ -57,6 +57,8 @@ def initial_content(kind: str, st: dict | None) -> bytes:
     code = "value1 := 1;\nvalue2 := 2;\n"
     if kind == "empty":
         return b""
+    if kind == "rawtags":    # a text file of a type that takes no comments (SVG, CSV, JSON...) whose text carries tags all the same
+        return ("<!-- SPDX-FileCopyrightText: 1985 Drawn By Hand -->\n<!-- SPDX-License-Identifier: Zlib -->\n" + code).encode()
     if kind == "bomcode":    # a byte order mark in front of ordinary code
         return b"\xef\xbb\xbf" + code.encode()
     if kind == "josecode":   # a header that already names a holder with non-ASCII letters
